@@ -140,7 +140,10 @@ def surface_kwargs(op, cache=None):
 def apply_build(optic, op, cache=None):
     """Apply one build operation through the public API."""
     o = op['op']
-    if o == 'add_surface':
+    if o == 'add_surface' and op.get('via_object') and op['index'] >= 2 \
+            and optic.surface_group.num_surfaces >= 2:
+        add_surface_object(optic, op, cache)
+    elif o == 'add_surface':
         optic.add_surface(**surface_kwargs(op, cache))
     elif o == 'set_aperture':
         optic.set_aperture(aperture_type=op['type'], value=op['value'])
@@ -169,6 +172,46 @@ def apply_build(optic, op, cache=None):
         raise ValueError('sample lenses are built by new_lens')
     else:
         raise ValueError(f'unknown build op {o}')
+
+
+def add_surface_object(optic, op, cache=None):
+    """add_surface(new_surface=...): a ready-made Surface whose coordinate
+    system refers to a parent system (the only public route to nested
+    coordinate systems)."""
+    from optiland.coordinate_system import CoordinateSystem
+    from optiland.geometries import Plane, StandardGeometry
+    from optiland.materials import IdealMaterial, Material
+    from optiland.surfaces.standard_surface import Surface
+    kw = surface_kwargs(op, cache)
+    k = kw['index']
+    sg = optic.surface_group
+    prev = sg.surfaces[k - 1]
+    # local z = vertex of the previous surface + the gap given for it
+    z = f(sg.positions[k - 1]) + op['via_object'].get('gap', 0.0)
+    parent = CoordinateSystem(**op['via_object']['parent'])
+    cs = CoordinateSystem(x=kw.get('dx', 0), y=kw.get('dy', 0), z=z,
+                          rx=kw.get('rx', 0), ry=kw.get('ry', 0),
+                          reference_cs=parent)
+    radius = kw.get('radius', INF)
+    geom = Plane(cs) if math.isinf(radius) else \
+        StandardGeometry(cs, radius, kw.get('conic', 0))
+    mat = kw['material']
+    pre = prev.material_post
+    if mat == 'air':
+        post = IdealMaterial(n=1.0, k=0.0)
+    elif mat == 'mirror':
+        post = pre
+    elif isinstance(mat, str):
+        post = Material(mat)
+    elif isinstance(mat, tuple):
+        post = Material(mat[0], mat[1])
+    else:
+        post = mat
+    surf = Surface(geom, pre, post, is_stop=kw['is_stop'],
+                   aperture=kw.get('aperture'),
+                   is_reflective=(mat == 'mirror'))
+    optic.add_surface(new_surface=surf, index=k,
+                      thickness=kw.get('thickness', 0))
 
 
 SAMPLES = [
